@@ -25,8 +25,10 @@ def check_country(rec: Rec, cc, spec):
         rec.fail("structure_unparsable", "structure_parses", inp, "n!c tokens", str(e))
         return
     n_max = sum(hi for _, lo, hi in toks)
-    if n_max != spec.get("bban_length"):
-        rec.fail("structure_length_vs_bban_length", "structure_describes_bban_length", inp, spec.get("bban_length"), n_max)
+    n_min = sum(lo for _, lo, hi in toks)
+    if n_max != spec.get("bban_length") or n_min != spec.get("bban_length"):
+        # "describes exactly its stated BBAN length": the shortest and the longest BBAN the structure admits
+        rec.fail("structure_length_vs_bban_length", "structure_describes_bban_length", inp, spec.get("bban_length"), [n_min, n_max])
     if spec.get("iban_length") != (spec.get("bban_length") or 0) + 4:
         rec.fail("iban_length_not_bban_plus_4", "iban_length", inp, (spec.get("bban_length") or 0) + 4, spec.get("iban_length"))
     if not isinstance(spec.get("iban_length"), int) or spec["iban_length"] > 34:
